@@ -227,7 +227,7 @@ func configureBasicUploadAdapter(m *concreteManifest) {
 
 func (a *basicUploadAdapter) makeRequest(t *Transfer, req *http.Request) (*http.Response, error) {
 	res, err := a.doHTTP(t, req)
-	if errors.IsAuthError(err) && len(req.Header.Get("Authorization")) == 0 {
+	if errors.IsAuthError(err) && len(req.Header.Get("Authorization")) == 0 && !t.Authenticated {
 		// Construct a new body with just the raw file and no callbacks. Since
 		// all progress tracking happens when the net.http code copies our
 		// request body into a new request, we can safely make this request
